@@ -3,6 +3,8 @@ package target
 import (
 	"context"
 	"net"
+	"strconv"
+	"strings"
 	"sync"
 	"time"
 
@@ -11,6 +13,8 @@ import (
 	"google.golang.org/grpc/codes"
 	"google.golang.org/grpc/metadata"
 	"google.golang.org/grpc/reflection"
+	reflv1 "google.golang.org/grpc/reflection/grpc_reflection_v1"
+	reflv1alpha "google.golang.org/grpc/reflection/grpc_reflection_v1alpha"
 	"google.golang.org/grpc/status"
 	"google.golang.org/protobuf/proto"
 )
@@ -154,4 +158,93 @@ var (
 func SharedGRPC() (*GRPC, *sync.Mutex) {
 	sharedGOnce.Do(func() { sharedG = NewGRPC() })
 	return sharedG, &sharedGMu
+}
+
+// GRPCReflect is a second listener that serves ONLY the server-reflection service (v1 and v1alpha), describing the
+// services of a GRPC target: the "reflection service located on a port other than the main server" of pandora's
+// reflect_port option. It implements no other service: every other call that arrives here is answered Unimplemented
+// and recorded as a stray call.
+type GRPCReflect struct {
+	srv *grpc.Server
+	lis net.Listener
+
+	mu      sync.Mutex
+	streams int      // reflection streams opened
+	stray   []string // full method names of the non-reflection calls received
+}
+
+// NewReflectOnly starts a reflection-only listener that describes the services registered on g.
+func (g *GRPC) NewReflectOnly() *GRPCReflect {
+	r := &GRPCReflect{}
+	lis, err := net.Listen("tcp", "127.0.0.1:0")
+	if err != nil {
+		panic(err)
+	}
+	r.lis = lis
+	r.srv = grpc.NewServer(
+		grpc.StreamInterceptor(func(srv any, ss grpc.ServerStream, info *grpc.StreamServerInfo, handler grpc.StreamHandler) error {
+			if strings.HasSuffix(info.FullMethod, "/ServerReflectionInfo") { // not the unknown-service handler's streams
+				r.mu.Lock()
+				r.streams++
+				r.mu.Unlock()
+			}
+			return handler(srv, ss)
+		}),
+		grpc.UnknownServiceHandler(func(_ any, ss grpc.ServerStream) error {
+			m, _ := grpc.MethodFromServerStream(ss)
+			r.mu.Lock()
+			r.stray = append(r.stray, m)
+			r.mu.Unlock()
+			return status.Error(codes.Unimplemented, "this port serves reflection only")
+		}),
+	)
+	opts := reflection.ServerOptions{Services: g.srv}
+	reflv1.RegisterServerReflectionServer(r.srv, reflection.NewServerV1(opts))
+	reflv1alpha.RegisterServerReflectionServer(r.srv, reflection.NewServer(opts))
+	go func() { _ = r.srv.Serve(lis) }()
+	return r
+}
+
+func (r *GRPCReflect) Addr() string { return r.lis.Addr().String() }
+func (r *GRPCReflect) Close()       { r.srv.Stop() }
+
+// Port is the listener's port number (the value of reflect_port).
+func (r *GRPCReflect) Port() int {
+	_, p, _ := net.SplitHostPort(r.Addr())
+	n, _ := strconv.Atoi(p)
+	return n
+}
+
+// Reset forgets what was recorded so far.
+func (r *GRPCReflect) Reset() {
+	r.mu.Lock()
+	r.streams, r.stray = 0, nil
+	r.mu.Unlock()
+}
+
+// Streams is the number of reflection streams opened since the last Reset.
+func (r *GRPCReflect) Streams() int {
+	r.mu.Lock()
+	defer r.mu.Unlock()
+	return r.streams
+}
+
+// Stray lists the non-reflection calls received since the last Reset (full method names).
+func (r *GRPCReflect) Stray() []string {
+	r.mu.Lock()
+	defer r.mu.Unlock()
+	return append([]string(nil), r.stray...)
+}
+
+var (
+	sharedGReflOnce sync.Once
+	sharedGRefl     *GRPCReflect
+)
+
+// SharedGRPCReflect returns the process-wide reflection-only listener of the SharedGRPC target; a case uses it while
+// holding the SharedGRPC lock.
+func SharedGRPCReflect() *GRPCReflect {
+	tg, _ := SharedGRPC()
+	sharedGReflOnce.Do(func() { sharedGRefl = tg.NewReflectOnly() })
+	return sharedGRefl
 }
